@@ -965,7 +965,7 @@ class DFA:
                         if len(relevant_values_in_msg) >= 3:
                             relevant_values_in_msg = list(relevant_values_in_msg)[:3]
                         if ProgramData.do(ProgramFlag.CODEPOINTS_IN_ERRORS):
-                            rv_suffix = f" on symbol{'s' if len(relevant_values_in_msg) > 1 else ''} {', '.join(format(ord(x), '02x') for x in relevant_values_in_msg)}"
+                            rv_suffix = f" on symbol{'s' if len(relevant_values_in_msg) > 1 else ''} {', '.join(format(ord(x), '02x') if isinstance(x, str) else repr(x) for x in relevant_values_in_msg)}"
                         else:
                             rv_suffix = f" on character{'s' if len(relevant_values_in_msg) > 1 else ''} {', '.join(repr(x) for x in (relevant_values_in_msg))}"
 
